@@ -235,6 +235,7 @@ LIBYANG_API_DEF LY_ERR
 lydict_insert(const struct ly_ctx *ctx, const char *value, size_t len, const char **str_p)
 {
     LY_ERR result;
+    const char *end;
 
     LY_CHECK_ARG_RET(ctx, ctx, str_p, LY_EINVAL);
 
@@ -245,6 +246,9 @@ lydict_insert(const struct ly_ctx *ctx, const char *value, size_t len, const cha
 
     if (!len) {
         len = strlen(value);
+    } else if ((end = memchr(value, '\0', len))) {
+        /* the dictionary holds strings, which are looked up and removed using their strlen() */
+        len = end - value;
     }
 
     pthread_mutex_lock((pthread_mutex_t *)&ctx->dict.lock);
